@@ -144,6 +144,36 @@ CHECKS["C19"] = (
     "suggestions include the word itself and are not ranked by closeness (test-pinned).",
     "TLA+ distance/automaton spec model-checked exhaustively + TLC-judged fuzzy expansions of the real code")
 
+_CONTENT_NOTE = ("Trusted: TLC; harness/cworld.py (schema over the shipped field/column types, injective value "
+                 "pools, read-back of docnum order through the stored key). The byte codecs are exercised, not modelled; "
+                 "values outside the pools and offsets past 2^31 are not covered.")
+CHECKS["C06"] = (
+    "model_checking",
+    "ContentCheck.tla defines the logical content (live keys by the dictionary model over the operations, lexicon, "
+    "postings with frequencies and positions, field lengths, stored values, column values, vectors, term "
+    "statistics, counts) as a function of the documents alone; the same operations are executed as one optimised "
+    "commit and under random commit partitions x merge choices x block limits x pool spilling, and every layout's "
+    "canonical dump is judged by TLC; BM25F scores are compared across deletion-free layouts.",
+    "DESIGN.md 4.2, 5 (C06)", _CONTENT_NOTE,
+    "TLA+ logical-content spec as oracle for canonical dumps of differently laid out indexes")
+CHECKS["C08"] = (
+    "model_checking",
+    "Stored/column clauses of ContentCheck.tla: which value id belongs to which document after any history, absent "
+    "=> absent / column default. Injective pools cover the value classes of the statement (300 distinct reference "
+    "values, long values pushing offsets past 2^16 in the large rounds); merges of segments with deletions, "
+    "compound/loose, mmap/no mmap/RAM/copy_to_ram, a rejected add_document between documents, the _stored_ override.",
+    "DESIGN.md 4.9, 5 (C08)", _CONTENT_NOTE + " The >32768-document single segment needed for the column offset array "
+    "is built only in the thorough tier.",
+    "TLA+ document/value alignment spec judged by TLC over dumps of real indexes")
+CHECKS["C18"] = (
+    "model_checking",
+    "The same ContentCheck.tla oracle over the product storage x packing x writer front-end (plain, MpWriter with "
+    "1-3 processes / batch sizes / merged or multisegment, BufferedWriter with small and large limits and with or "
+    "without explicit commits, AsyncWriter), with a history that contains an optimising commit over existing "
+    "segments and ends in deletions; BufferedWriter.searcher() view and close().",
+    "DESIGN.md 4.3, 5 (C18)", _CONTENT_NOTE + " Timer firings of BufferedWriter are not scheduled (period=None).",
+    "TLA+ logical-content spec as oracle across storage/front-end configurations")
+
 NOT_YET = {}
 
 
